@@ -149,15 +149,22 @@ func Random(rng *rand.Rand, alg string, s Shape, topTag string) *Graph {
 		top = g.Schema1("library/x", topTag, ls)
 	case "artifact":
 		cfg := g.BlobBytes("config", la.MTOCIEmpty, []byte("{}"))
-		l := g.Blob("layer", "application/vnd.example.data", 1+rng.Intn(s.MaxBlob))
-		top = g.Image(cfg, []*Node{l}, ImageOpts{Family: "oci", ArtifactType: "application/vnd.example.thing"})
+		ls := []*Node{g.Blob("layer", "application/vnd.example.data", 1+rng.Intn(s.MaxBlob))}
+		if s.Share {
+			// the OCI guidance for artifacts without content: config and layer are both the empty descriptor
+			ls = append([]*Node{cfg}, ls...)
+		}
+		top = g.Image(cfg, ls, ImageOpts{Family: "oci", ArtifactType: "application/vnd.example.thing"})
 	case "artifact-index":
+		var es []*Node
 		cfg := g.BlobBytes("config", la.MTOCIEmpty, []byte("{}"))
-		l := g.Blob("layer", "application/vnd.example.data", 1+rng.Intn(s.MaxBlob))
-		a := g.Image(cfg, []*Node{l}, ImageOpts{Family: "oci", ArtifactType: "application/vnd.example.thing"})
+		for i := 0; i < 1+s.Platforms/2; i++ {
+			l := g.Blob("layer", "application/vnd.example.data", 1+rng.Intn(s.MaxBlob))
+			es = append(es, g.Image(cfg, []*Node{l}, ImageOpts{Family: "oci", ArtifactType: "application/vnd.example.thing", Annotations: map[string]string{"n": fmt.Sprint(i)}}))
+		}
 		p := platforms[0]
-		im := image(1, &p, nil, "", nil)
-		top = g.Index("oci", []*Node{a, im}, nil, nil)
+		es = append(es, image(1, &p, nil, "", nil))
+		top = g.Index("oci", es, nil, nil)
 	}
 	g.Top = top.ID
 	if topTag != "" {
